@@ -293,7 +293,7 @@ func c09Run(c c09Case) Verdict {
 	}
 	_, fin := w.Finish()
 	if !fin {
-		return Verdict{Inconclusive: "watchdog while finishing"}
+		return finishFail(w)
 	}
 	if p := r.Log.Panicked(); p != "" {
 		return failf("panic", "server logged a panic: %s", p)
